@@ -160,6 +160,17 @@ type Scenario struct {
 	// the same adapter before the examined one
 	Adapter bool       `json:"adapter,omitempty"`
 	Prev    [][]string `json:"prev,omitempty"`
+	// Steps: a history on the same router between the set-up above and the examined request -
+	// requests that are dispatched, patterns registered again (the newest registration is the one in
+	// force), removed, registered for the first time, middlewares added - in a generated order: the
+	// routing table changes after the router has already served requests
+	Steps []Step `json:"steps,omitempty"`
+}
+
+type Step struct {
+	Kind string   `json:"kind"`           // req | again | remove | use
+	I    int      `json:"i,omitempty"`    // again/remove: index into Patterns
+	Segs []string `json:"segs,omitempty"` // req: the path segments (nil = no path)
 }
 
 type fakeWriter struct{ msg *pool.Message }
@@ -252,8 +263,10 @@ func Exec(sc Scenario) *evid.Failure {
 			order = append(order, "handler")
 		}))
 	}
-	for i := 0; i < sc.Middlewares; i++ {
-		name := fmt.Sprintf("mw%d", i)
+	nmw := 0
+	use := func() {
+		name := fmt.Sprintf("mw%d", nmw)
+		nmw++
 		r.Use(func(next mux.Handler) mux.Handler {
 			return mux.HandlerFunc(func(w mux.ResponseWriter, req *mux.Message) {
 				order = append(order, name+">")
@@ -262,13 +275,48 @@ func Exec(sc Scenario) *evid.Failure {
 			})
 		})
 	}
+	for i := 0; i < sc.Middlewares; i++ {
+		use()
+	}
 	w := &fakeWriter{msg: pool.NewMessage(context.Background())}
+	h := mux.ToHandler[*udpClient.Conn](r)
 	if sc.Adapter {
-		h := mux.ToHandler[*udpClient.Conn](r)
 		for _, segs := range sc.Prev {
 			h(responsewriter.New[*udpClient.Conn](pool.NewMessage(context.Background()), nil), request(segs, segs == nil).Message)
 		}
-		calls, order = nil, nil
+	}
+	gens := map[int]int{}
+	for _, st := range sc.Steps {
+		switch st.Kind {
+		case "req":
+			if sc.Adapter {
+				h(responsewriter.New[*udpClient.Conn](pool.NewMessage(context.Background()), nil), request(st.Segs, st.Segs == nil).Message)
+			} else {
+				r.ServeCOAP(&fakeWriter{msg: pool.NewMessage(context.Background())}, request(st.Segs, st.Segs == nil))
+			}
+		case "again":
+			if st.I < len(sc.Patterns) {
+				gens[st.I]++
+				if f := register(sc.Patterns[st.I], 2+gens[st.I]); f != nil {
+					return f
+				}
+			}
+		case "remove":
+			if st.I < len(sc.Patterns) {
+				ps := sc.Patterns[st.I].String()
+				if _, ok := byPattern[filter(ps)]; ok {
+					if err := r.HandleRemove(ps); err != nil {
+						return evid.Failf("route/remove-refused", sc, "HandleRemove(%q) of a registered pattern failed: %v", ps, err)
+					}
+					delete(byPattern, filter(ps))
+				}
+			}
+		case "use":
+			use()
+		}
+	}
+	calls, order = nil, nil
+	if sc.Adapter {
 		h(responsewriter.New[*udpClient.Conn](w.msg, nil), request(sc.Segments, sc.NoPath).Message)
 	} else {
 		r.ServeCOAP(w, request(sc.Segments, sc.NoPath))
@@ -289,7 +337,7 @@ func Exec(sc Scenario) *evid.Failure {
 		if len(calls) == 0 && w.msg.Code() == codes.NotFound {
 			calls = append(calls, call{who: "<default>"})
 			// the built-in handler cannot log itself: it ran inside however many middlewares were entered
-			k := min(sc.Middlewares, len(order)/2)
+			k := min(nmw, len(order)/2)
 			order = append(order[:k:k], append([]string{"handler"}, order[k:]...)...)
 		}
 	}
@@ -358,11 +406,11 @@ func Exec(sc Scenario) *evid.Failure {
 	}
 	// middlewares: outermost first, in registration order
 	var want []string
-	for i := 0; i < sc.Middlewares; i++ {
+	for i := 0; i < nmw; i++ {
 		want = append(want, fmt.Sprintf("mw%d>", i))
 	}
 	want = append(want, "handler")
-	for i := sc.Middlewares - 1; i >= 0; i-- {
+	for i := nmw - 1; i >= 0; i-- {
 		want = append(want, fmt.Sprintf("<mw%d", i))
 	}
 	if strings.Join(order, " ") != strings.Join(want, " ") {
@@ -454,8 +502,38 @@ func instantiate(t *rapid.T, p Pattern) string {
 	return sb.String()
 }
 
-func genScenario(t *rapid.T) Scenario {
-	sc := genDirect(t)
+func genScenario(t *rapid.T) (sc Scenario) {
+	sc = genDirect(t)
+	defer func() {
+		// a history between the set-up and the examined request (a third of the scenarios)
+		if rapid.IntRange(0, 2).Draw(t, "history") != 0 {
+			return
+		}
+		n := rapid.IntRange(1, 6).Draw(t, "nsteps")
+		for i := 0; i < n; i++ {
+			st := Step{Kind: rapid.SampledFrom([]string{"req", "req", "req", "again", "again", "remove", "use"}).Draw(t, "stepkind")}
+			switch st.Kind {
+			case "req":
+				// mostly the examined request itself or an instance of a pattern: what a router that
+				// remembers earlier decisions would remember
+				switch rapid.IntRange(0, 3).Draw(t, "stepreq") {
+				case 0:
+					st.Segs = []string{"nothing", "registered", "here"}
+				case 1:
+					if path := strings.TrimPrefix(instantiate(t, sc.Patterns[rapid.IntRange(0, len(sc.Patterns)-1).Draw(t, "stepwhich")]), "/"); path != "" {
+						st.Segs = strings.Split(path, "/")
+					}
+				default:
+					if !sc.NoPath {
+						st.Segs = append([]string{}, sc.Segments...)
+					}
+				}
+			case "again", "remove":
+				st.I = rapid.IntRange(0, len(sc.Patterns)-1).Draw(t, "stepi")
+			}
+			sc.Steps = append(sc.Steps, st)
+		}
+	}()
 	if rapid.IntRange(0, 2).Draw(t, "adapter") == 0 {
 		sc.Adapter = true
 		n := rapid.IntRange(0, 3).Draw(t, "nprev")
